@@ -75,6 +75,28 @@ ROUND_TEXT = {
         "'vectorise' silently changes shape or pairing; (4) a change that is only wrong for a multi-valued object whose values "
         "are NOT all of the same kind (one identity among rotations, one prismatic among revolute twists, one pure among general "
         "quaternions); (5) off-by-one and boundary slips in comparisons (< vs <=, >= vs >) exactly at a documented boundary value."),
+    9: ("This is a NINTH round.  Earlier rounds already produced slips in the main lines and rarely reached arms of the anchored "
+        "functions, option values, caches / history, dtype and argument-object handling, accuracy bands, route mismatches, partial "
+        "application, exception contracts, shortcuts for degenerate inputs, objects holding values of mixed kinds, results that share "
+        "state with their operands, and boundary comparisons.  Find something those do not cover.  Suggestions: (1) OPTION FORWARDING "
+        "THROUGH WRAPPERS -- a class method or constructor that forwards to a base function and drops, renames, re-defaults or "
+        "mis-orders one keyword, or applies it twice; (2) OPERATOR VARIANTS -- the augmented or reflected form of an operator "
+        "diverging from the plain form; (3) POSITION IN A SEQUENCE -- right for one or two values, wrong for the last / first of "
+        "three or more; (4) SYMMETRY COUNTERPARTS -- right for the documented examples, wrong for their mirror image; (5) THE RESULT "
+        "CONTRACT -- container, shape or element type of a result changing for some input; (6) ERROR PATHS -- an operation that "
+        "raises but has already changed its receiver, or an exception caught too broadly.  (Reconstructed summary of the text used.)"),
+    10: ("This is a TENTH round, organised differently: work CLAUSE BY CLAUSE.  First split the STATEMENT into its individual "
+         "clauses (every 'and', every item of an enumeration, every parenthesis, every tolerance, every 'including ...' of the "
+         "quantifier is a clause of its own) and write the list to clauses.md in your worktree.  For each clause note which public "
+         "functions / methods / options it speaks about.  Then choose the TWO clauses that you judge LEAST likely to be exercised by "
+         "a generic randomised check of the property -- the ones in the fine print: a secondary accessor, the second half of a "
+         "sentence, a parenthetical special case, a 'keeps ...' or 'agrees with ...' side condition, the behaviour of the less common "
+         "of two spellings -- and make one mutant against each, such that every OTHER clause of the statement still holds with the "
+         "mutant applied (verify this in your demo: it must check the other clauses too and show that only the targeted clause "
+         "fails).  Earlier rounds already covered: rarely reached arms, option values and option forwarding, caches / history, dtype "
+         "and argument-object handling, accuracy bands, route mismatches, exception contracts, shortcuts for degenerate inputs, "
+         "objects holding values of mixed kinds, shared state between results and operands, augmented / reflected operators, "
+         "position in a sequence, symmetry counterparts."),
 }
 
 HUNT_TEXT = '''ALSO, BEFORE the mutants (about a third of your effort): hunt for inputs for which the UNMODIFIED tree already violates the property.  Read the statement and the quantifier literally and probe its corners systematically with small scripts: every class and call form it names, the extremes of the stated ranges, exact special values, multi-valued objects, every option value, both units, documented aliases, sequences of operations on one object.  Write what you find to {wt}/bughunt.md: for each violation a two-line reproduction, the value obtained and the value the property requires; if you find none, list briefly what you covered.  Do not fix anything.
